@@ -117,6 +117,20 @@ def ladders():
         out.append("map {" * d)
         out.append("if 1 {" * d)
         out.append("fn(" * d)
+    # long operator chains: no brackets at all, but a deep AST
+    return out
+
+
+def chains():
+    """long operator chains: no brackets at all, but a deep AST"""
+    out = []
+    for n in (10, 100, 200, 300, 1000, 3000, 20000):
+        out.append(("chain-binary", "1" + " + 1" * n))
+        out.append(("chain-assign", "let a = 0; a" + " = a" * min(n, 3000)))
+        out.append(("chain-logical", "1" + " && 1" * n))
+        out.append(("chain-prefix", "-" * min(n, 3000) + "1"))
+        out.append(("chain-index", "let a = []; a" + "[0]" * min(n, 3000)))
+        out.append(("chain-elseif", "if 0 {}" + " else if 0 {}" * min(n, 3000)))
     return out
 
 
@@ -215,6 +229,7 @@ def run(chk):
             texts.append(("prefix", s[:cut]))
     for t in ladders():
         texts.append(("ladder", t))
+    texts.extend(chains())
     cases = [Case("t%d" % i, t, {"stage": "compile"}) for i, (_, t) in enumerate(texts)]
     res = core.run_cases(cases, shards=shards)
     for i, (cls, t) in enumerate(texts):
@@ -236,9 +251,36 @@ def run(chk):
         elif oc == "token_budget":
             fails.append(("token_budget", "", t, cls))
         elif oc in ("hang", "died"):
-            fails.append((oc, str(r.get("rc")), t, cls))
+            fails.append((oc + ":" + cls, str(r.get("rc")), t, cls))
         else:
             chk.inconc("probe outcome %s" % oc)
+
+    # ---- nesting ladders and operator chains also run on the real dev binary (its frames are larger than the probe's)
+    from concurrent.futures import ThreadPoolExecutor
+    deep = [(cls, t) for cls, t in texts if cls == "ladder" or cls.startswith("chain")]
+    wdir = core.scratch_dir()
+    try:
+        def run_deep(k):
+            cls, t = deep[k]
+            path = os.path.join(wdir, "d%d.p2" % k)
+            with open(path, "w", encoding="utf-8") as f:
+                f.write(t)
+            rr = core.run_binary([path], timeout=60, step_budget=1000)
+            os.unlink(path)
+            return rr
+        with ThreadPoolExecutor(max_workers=core.NCPU) as ex:
+            for k, rr in enumerate(ex.map(run_deep, range(len(deep)))):
+                cls, t = deep[k]
+                if rr["timeout"]:
+                    chk.inconc("timeout of the dev binary on a ladder text")
+                    continue
+                chk.observed((cls + "/binary", core.crashed(rr)))
+                if core.crashed(rr):
+                    fails.append(("died:" + cls, str(rr["rc"]), t, cls))
+        chk.count("ladder_and_chain_texts_on_dev_binary", len(deep))
+    finally:
+        import shutil
+        shutil.rmtree(wdir, ignore_errors=True)
 
     # ---- confirm every distinct failure site on the real binary
     by_site = {}
@@ -253,7 +295,7 @@ def run(chk):
             path = os.path.join(work, "w.p2")
             with open(path, "w", encoding="utf-8") as f:
                 f.write(wit)
-            if site in ("token_budget", "hang"):
+            if site == "token_budget" or site.startswith("hang"):
                 alive = 0
                 for _ in range(2):
                     rr = core.run_binary([path], timeout=20)
@@ -274,12 +316,19 @@ def run(chk):
             confirmed = 0
             last = None
             for rel in (False, True):
-                rr = core.run_binary([path], release=rel, timeout=30, step_budget=100000)
-                last = rr
+                rr = core.run_binary([path], release=rel, timeout=60, step_budget=100000)
+                if last is None:
+                    last = rr
                 if core.crashed(rr):
                     confirmed += 1
+                    if not core.crashed(last):
+                        last = rr
             if confirmed:
-                sig = "panic|" + core.panic_site_sig(site, msg) if ":" in site else "death|" + site
+                if site.startswith("died") or site.startswith("hang"):
+                    e = last["err"].decode("utf-8", "replace")
+                    sig = "death|%s|%s" % (origin, "stack overflow" if "overflowed its stack" in e else core.msg_class(e[-60:]))
+                else:
+                    sig = "panic|" + core.panic_site_sig(site, msg)
                 chk.violation(sig, "front end panics: %s at %s (%d texts; %d/2 build profiles)" % (msg, site, cnt, confirmed),
                               {"text": wit, "origin": origin, "stderr": last["err"].decode("utf-8", "replace")[-400:]})
             else:
